@@ -31,6 +31,8 @@ ENC = {
     "int1/0": dict(ml=0, classes=[1, 2, 3], dtype=int),
     "intgap/2": dict(ml=2, classes=[0, 1, 3], dtype=int),
     "str/empty": dict(ml="", classes=["a", "b", "c"], dtype=str),
+    # one-character labels that are prefixes of the sentinel: a fully annotated matrix has dtype <U1, narrower than the sentinel
+    "strprefix/nan": dict(ml="nan", classes=["a", "n", "y"], dtype=str),
     "obj/None": dict(ml=None, classes=["a", "b", "c"], dtype=object),
 }
 
@@ -38,7 +40,7 @@ ENC = {
 def bounds(tier):
     q = tier == "quick"
     return {
-        "encodings": list(ENC) if not q else ["float/nan", "int10/0", "int1/0", "intgap/2", "str/empty", "obj/None"],
+        "encodings": list(ENC) if not q else ["float/nan", "int10/0", "int1/0", "intgap/2", "str/empty", "strprefix/nan", "obj/None"],
         "label_shapes": [[1], [2], [3], [1, 1], [1, 2], [2, 1], [2, 2], [3, 2], [2, 3]] if not q else [[1], [2], [1, 2], [2, 2], [3, 2], [2, 3]],
         "label_shapes_all_encodings": [[2], [2, 2]],
         "symbols": "missing + 3 classes",
